@@ -107,6 +107,10 @@ def _scaler(kind):
     return lambda x, g, lb, ub: s
 
 
+class InjectedBase(BaseException):
+    """A fault that is not an `Exception` (like KeyboardInterrupt / SystemExit): nothing may catch and convert it."""
+
+
 def _update_fn(kind):
     """Update functions for C13: rewrite the stored gradients (objective redefinition)."""
     if kind in ("none", "ident"):
@@ -144,7 +148,9 @@ def execute(spec, want_obs=False):
         kind, idx, et = spec["fault"]
         exc = {"InjectedFault": InjectedFault, "TypeError": TypeError, "IndexError": IndexError,
                "ValueError": ValueError, "ZeroDivisionError": ZeroDivisionError,
-               "KeyError": KeyError}[et](f"injected {kind}#{idx}")
+               "KeyError": KeyError, "StopIteration": StopIteration, "OverflowError": OverflowError,
+               "RuntimeError": RuntimeError, "AssertionError": AssertionError, "LookupError": LookupError,
+               "InjectedBase": InjectedBase}[et](f"injected {kind}#{idx}")
         fault = (kind, idx, exc)
     results = []
     x0 = p.x0
